@@ -3,26 +3,28 @@
 # Confirms an independently written breaking change in its scratch worktree (demo fails with the change, passes without,
 # existing suite passes with the change and the demo file moved aside) and stores it as /verif/seeded/<id>/.
 set -u
-WT=$1; ID=$2; RX=$3; PKG=${4:-./internal/etoe/}
+WT=$1; ID=$2; RX=$3; PKG=${4:-./internal/etoe/}; TAGS=${TAGS:-}   # TAGS="-tags verif" for demos that use the hook constructors
 export GOFLAGS=-mod=mod GOPROXY=off
 D=/verif/seeded/$ID; mkdir -p $D
 cp -r $WT/SEED/patch.diff $WT/SEED/meta.json $D/ ; rm -rf $D/demo; cp -r $WT/SEED/demo $D/demo
 cd $WT
 git apply -R --check SEED/patch.diff 2>/dev/null || { echo "patch is not applied in worktree; applying"; git apply SEED/patch.diff || exit 2; }
-go test -vet=off -count=1 -run "$RX" $PKG > /tmp/ingest.$ID.with.log 2>&1; with=$?
+for f in SEED/demo/*_test.go; do d=$(find . -name "$(basename $f)" -not -path './SEED/*' | head -1); [ -n "$d" ] || cp $f ${PKG}; done
+go test $TAGS -vet=off -count=1 -run "$RX" $PKG > /tmp/ingest.$ID.with.log 2>&1; with=$?
 git apply -R SEED/patch.diff
-go test -vet=off -count=1 -run "$RX" $PKG > /tmp/ingest.$ID.without.log 2>&1; without=$?
+go test $TAGS -vet=off -count=1 -run "$RX" $PKG > /tmp/ingest.$ID.without.log 2>&1; without=$?
 git apply SEED/patch.diff
 # existing suite with the change, demo files moved aside
 mkdir -p /tmp/ingest.$ID.aside; find . -name 'seeded_*_test.go' -not -path './SEED/*' -exec mv {} /tmp/ingest.$ID.aside/ \; ; mv SEED /tmp/ingest.$ID.aside/SEED
 go test -vet=off -count=1 ./... > /tmp/ingest.$ID.suite.log 2>&1; suite=$?
 mv /tmp/ingest.$ID.aside/SEED SEED
-python3 - "$D/meta.json" $with $without $suite "$RX" "$PKG" <<'PY'
+rm -rf /tmp/ingest.$ID.aside
+python3 - "$D/meta.json" $with $without $suite "$RX" "$PKG" "$TAGS" <<'PY'
 import json,sys
-p,w,wo,su,rx,pkg=sys.argv[1:7]
+p,w,wo,su,rx,pkg,tags=sys.argv[1:8]
 m=json.load(open(p))
 m['confirmed_by_us']={'demo_exit_with_change':int(w),'demo_exit_without_change':int(wo),'suite_exit_with_change':int(su),
-  'demo_command':f"go test -vet=off -count=1 -run '{rx}' {pkg}", 'suite_command':'go test -vet=off -count=1 ./... (demo files moved aside)'}
+  'demo_command':f"go test {tags} -vet=off -count=1 -run '{rx}' {pkg}".replace("  "," "), 'suite_command':'go test -vet=off -count=1 ./... (demo files moved aside)'}
 json.dump(m,open(p,'w'),indent=1)
 print(m['confirmed_by_us'])
 PY
